@@ -60,3 +60,17 @@ Theorem C06_jpeg_any_order : forall inflate (jits : list jitem) (n : nat) fr sos
           md_icc := icc_of_buffer (spec cs n) |}.
 Proof. exact jpeg_icc_any_order. Qed.
 Print Assumptions C06_jpeg_any_order.
+
+(* JPEG, damaged: some of the n announced chunks missing (those present distinct, in range, all
+   announcing n): basic metadata intact, profile reported as an error; no ICC chunk at all: absent *)
+Theorem C06_jpeg_missing_chunks : forall inflate (jits : list jitem) (n : nat) fr sos body fuel,
+  let cs := chunks_of jits in
+  1 <= n <= 255 -> length cs < n ->
+  NoDup (map cseq cs) -> (forall c, In c cs -> ctotal c = N.of_nat n /\ (1 <= cseq c <= N.of_nat n)%N) ->
+  sofs_of jits = [fr] -> Forall jitem_ok jits ->
+  Forall item_ok (map enc jits) -> seg_ok 0xda sos -> length jits < fuel ->
+  fst (run_pure inflate (jpeg_prog fuel) (jpeg_file (map enc jits) sos body))
+  = Ok {| md_format := JPEG; md_w := fst (fst fr); md_h := snd (fst fr); md_bits := snd fr;
+          md_icc := match cs with [] => IccNone | _ => IccErr end |}.
+Proof. exact jpeg_icc_missing_chunks. Qed.
+Print Assumptions C06_jpeg_missing_chunks.
